@@ -310,13 +310,47 @@ def _user_container_params(F, adt):
     return out
 
 
+_SAT = {}
+
+
+def _sig_arg_types(body):
+    """top-level argument types of the function's own signature: a value of such a (generic / impl Trait) type is handed in by the
+    caller of this very function, so its `borrow()` / `as_ref()` is the caller's code"""
+    k = id(body)
+    if k in _SAT:
+        return _SAT[k]
+    sig = body.raw.get('sig') or ''
+    out = set()
+    if sig.startswith('fn('):
+        depth, cur = 0, ''
+        for ch in sig[3:]:
+            if ch in '<([':
+                depth += 1
+            elif ch in '>)]':
+                if ch == ')' and depth == 0:
+                    break
+                if not (ch == '>' and cur.endswith('-')):
+                    depth -= 1
+            if ch == ',' and depth == 0:
+                out.add(cur.strip()); cur = ''
+            else:
+                cur += ch
+        if cur.strip():
+            out.add(cur.strip())
+    out = {t[1:].strip() if t.startswith('&') else t for t in out} | out
+    _SAT[k] = out
+    return out
+
+
 def _fresh_user_views(evaluator, st, term, c, args):
     """call hook: a view of a value whose type is a generic parameter is a separate fetch per call site."""
     if not c or c.get('def') not in _VIEW_FNS or not c.get('args') or not args:
         return None
     a0 = c['args'][0]
     ty = evaluator.F.types[a0['ty']] if isinstance(a0, dict) and 'ty' in a0 else None
-    if not ty or ty.get('k') != 'param' or ty.get('name') not in _user_container_params(evaluator.F, evaluator.body.self_adt):
+    if not ty or ty.get('k') != 'param':
+        return None
+    if ty.get('name') not in _user_container_params(evaluator.F, evaluator.body.self_adt) and ty.get('name') not in _sig_arg_types(evaluator.body):
         return None
     inner = evaluator.deref_val(st, args[0]) if args[0][0] == 'ref' else args[0]
     return ('call', 'user-view@bb%s' % term.get('span', {}).get('at', '?') if False else 'user-view@%s' % id(term), (inner,), None)
@@ -488,7 +522,15 @@ def check_sites(ctx, F):
             # the inductive step (indices read from the table) is TRUSTED-DATA; the *entry* index is machine checked
             firsts = [first_iteration_bound(F, r, i, e, True) for r, i, e in hits]
             k2 = key + '/entry'
+            refetch = False
             if all(firsts):
+                _, paths2 = rules.evaluate(b, call_hook=_fresh_user_views)
+                hits2 = list(events_at(paths2 or [], blk))
+                refetch = paths2 is not None and bool(hits2) and not all(first_iteration_bound(F, r2, i2, e2, True) for r2, i2, e2 in hits2)
+            if refetch:
+                ctx.bad('R8', 'entry index of an unchecked table walk is in bounds', b.defpath,
+                        'the range check examines one fetch of the caller\'s value (`borrow()` of an `impl Borrow` argument) and the unchecked walk starts from another fetch: a safe `Borrow` implementation may answer differently the second time, so an out-of-alphabet index reaches get_unchecked', key=k2, loc=loc)
+            elif all(firsts):
                 ctx.ok('R8', 'entry index of an unchecked table walk is in bounds', b.defpath, 'first iteration: %s (assuming the table is non-empty)' % firsts[0], key=k2, loc=loc)
             else:
                 ctx.bad('R8', 'entry index of an unchecked table walk is in bounds', b.defpath,
@@ -737,6 +779,110 @@ def check_mut_escape(ctx, F, n_cursor_unsafe):
     c17.check_invariant(ctx, F)
 
 
+_WIDTH = {'u8': 8, 'u16': 16, 'u32': 32, 'u64': 64, 'u128': 128, 'usize': 64, 'i8': 8, 'i16': 16, 'i32': 32, 'i64': 64, 'i128': 128, 'isize': 64}
+
+
+def _const_width(t):
+    """integer value of a constant term: a literal, the bit width of a primitive integer in one of its spellings, casts thereof"""
+    import re
+    if not isinstance(t, tuple) or not t:
+        return None
+    if t[0] == 'int':
+        return t[1]
+    if t[0] == 'cast':
+        return _const_width(t[2])
+    if t[0] == 'c':
+        m = re.fullmatch(r'<(\w+) as (?:\w+::)*BitArray>::BITS', t[1]) or re.fullmatch(r'core::num::<impl (\w+)>::BITS', t[1]) or re.fullmatch(r'(\w+)::BITS', t[1])
+        if m and m.group(1) in _WIDTH:
+            return _WIDTH[m.group(1)]
+    return None
+
+
+def _static_bounds(F, b):
+    """{const param: exclusive upper bound (int or 'usize::BITS' style text)} asserted at compile time in body b: the associated
+    consts of the local `Check` struct that generic_static_asserts! expands to (`const L: () = assert!(P < bound)`), found
+    through their uses in b."""
+    out = {}
+    for bl in b.blocks:
+        for st in bl['stmts']:
+            if st['k'] != 'assign' or st['rv'].get('k') != 'use':
+                continue
+            op = st['rv']['op']
+            if op.get('k') != 'const' or op.get('ck') != 'uneval' or not op.get('def'):
+                continue
+            cb = F.by_def.get(op['def']) or F.by_def.get(op.get('text'))
+            if cb is None:
+                cands = [x for x in F.bodies if x.promoted is None and x.defpath == op.get('text')]
+                cb = cands[0] if cands else None
+            if cb is None or not str(cb.dk).startswith('AssocConst'):
+                continue
+            # the assertion's condition, read off the path of the const body that returns (the other one panics)
+            try:
+                _, cpaths = rules.evaluate(cb)
+            except Exception:
+                cpaths = None
+            for r in cpaths or []:
+                if r.end != 'return':
+                    continue
+                for t, v, _ in r.preds:
+                    if t[0] != 'bin' or t[1] not in ('Lt', 'Le', 'Gt', 'Ge'):
+                        continue
+                    op, l, rr = t[1], t[2], t[3]
+                    if not v:
+                        op = {'Lt': 'Ge', 'Le': 'Gt', 'Gt': 'Le', 'Ge': 'Lt'}[op]
+                    if l[0] == 'c' and _const_width(rr) is not None and op in ('Lt', 'Le'):
+                        bound = _const_width(rr) + (1 if op == 'Le' else 0)
+                        out[l[1]] = min(out.get(l[1], bound), bound)
+                    elif rr[0] == 'c' and _const_width(l) is not None and _const_width(rr) is None and op in ('Gt', 'Ge'):
+                        bound = _const_width(l) + (1 if op == 'Ge' else 0)
+                        out[rr[1]] = min(out.get(rr[1], bound), bound)
+    return out
+
+
+def check_const_shift_bounded(ctx, F):
+    """A built-in shift of a concrete integer by a const generic parameter (`1usize << PRECISION`) overflows when the parameter
+    reaches the width of the integer: a panic in debug builds, a masked shift (1 << 0) in release builds - arithmetic that is only
+    "correct" because release builds wrap, here sizing the lookup table that is later indexed without a bounds check.  Every such
+    shift sits in a function whose compile-time assertions bound the parameter strictly below the width (the same bound its
+    siblings state as USIZE_MUST_STRICTLY_SUPPORT_PRECISION)."""
+    n = 0
+    for b in F.bodies:
+        if b.promoted is not None or '::tests::' in b.defpath or b.dk not in ('Fn', 'AssocFn', 'Closure'):
+            continue
+        sites = {}
+        for bl in b.blocks:
+            if bl['cleanup']:
+                continue
+            for st in bl['stmts']:
+                if st['k'] != 'assign' or st['rv'].get('k') != 'bin' or st['rv'].get('op') not in ('Shl', 'Shr'):
+                    continue
+                r = st['rv']['r']
+                if r.get('k') == 'const' and r.get('param'):
+                    lt = st['rv']['l'].get('ty')
+                    w = _WIDTH.get(F.types[lt].get('s')) if lt is not None else None
+                    sites.setdefault((r['param'], w), []).append(st['span']['at'])
+        if not sites:
+            continue
+        bounds = _static_bounds(F, b)
+        root = b.defpath.split('::{closure')[0]
+        if b.dk == 'Closure' and root in F.by_def:
+            bounds = dict(_static_bounds(F, F.by_def[root]), **bounds)
+        for (param, w), spans in sorted(sites.items(), key=str):
+            n += 1
+            key = 'R9/const-shift-bounded/%s/%s' % (b.defpath, param)
+            role = 'a shift by a const generic parameter is statically below the width of the shifted integer'
+            ctx.touch(b)
+            if w is None:
+                ctx.unresolved('R9', role, b.defpath, 'width of the shifted type not known', key=key)
+            elif param in bounds and bounds[param] <= w:
+                ctx.ok('R9', role, b.defpath, '%d shift(s) by %s of a %d-bit integer; static assertion %s < %d in the same function' % (len(spans), param, w, param, bounds[param]), key=key)
+            else:
+                ctx.bad('R9', role, b.defpath, '%d shift(s) of a %d-bit integer by the const parameter %s, and no compile-time assertion in this function keeps %s below %d%s: with %s == %d the shift panics in debug builds and is a shift by zero in release builds (a one-entry table behind an unchecked index)' % (
+                    len(spans), w, param, param, w, (' (the assertions present only give %s < %d)' % (param, bounds[param])) if param in bounds else '', param, w), key=key, loc=spans[0].split('-')[0])
+    ctx.extra['const_shift_sites'] = n
+    ctx.floor('R9', 'floor: shifts by a const generic parameter', 'crate', n, 4, 'only %d functions with a built-in shift by a const parameter found (the lookup-table constructors are expected)' % n, key='R9/floor/const-shift')
+
+
 def check_validators_fetch_once(ctx, F):
     """The validators are what the TRUSTED-DATA rows rest on: a table that passed one is assumed to satisfy its invariants.  They
     receive their data through user code (`Borrow::borrow` on the items of a user iterator, `AsRef::as_ref`, `Deref::deref` on
@@ -791,6 +937,7 @@ def run(ctx):
     c19.check_inferred_probability(ctx, F)
     check_strict_producers(ctx, F)
     check_validators_fetch_once(ctx, F)
+    check_const_shift_bounded(ctx, F)
     n_cursor_unsafe = sum(1 for s in unsafe_sites(F) if s['body'].file.endswith('backends.rs'))
     check_mut_escape(ctx, F, n_cursor_unsafe)
     check_unsafe_impls(ctx, F)
